@@ -341,6 +341,11 @@ def run_parent(pid: str, tier: str, workers: int | None = None) -> int:
         merged = _merge(parts)
         shutil.rmtree(wd, ignore_errors=True)
         reasons.extend(merged["inconclusive"])
+        if hasattr(mod, "finish"):
+            try:
+                mod.finish(merged)
+            except Exception:  # noqa: BLE001
+                reasons.append("harness error in finish(): " + traceback.format_exc(limit=4))
         # required classes / monitors / anchors
         req = getattr(mod, "REQUIRED", {})
         req = req.get(tier, req) if isinstance(req.get("quick", None), dict) else req
